@@ -120,7 +120,7 @@ def run(ctx):
         jobs.append(addrlib.Job("mask%d" % k, ["mask", 1 if full else 0, ctx.seed, lo, hi],
                                 {"DOM": "mask", "FULL": full, "CHUNK": k, "NCHUNK": kmask}))
     nmr = 130 * (8 if quick else 200)
-    jobs.append(addrlib.Job("maskr", ["maskr", ctx.seed, nmr], {"DOM": "maskr", "COUNT": nmr}))
+    jobs.append(addrlib.Job("rmask", ["maskr", ctx.seed, nmr], {"DOM": "maskr", "COUNT": nmr}))
     # (ii) mask forms
     lines = ["form %s %d %s" % (d["fam"], d["i"], " ".join(map(str, d["s"]))) for d in rows]
     kf = 4
@@ -148,6 +148,10 @@ def run(ctx):
     # big jobs first so that the pool drains evenly
     results = run.run_all(jobs, workers=14)
     run.process(results)
+    run.check_tiling(results, "mask", nmask)
+    run.check_tiling(results, "form", len(lines))
+    for name, maxlen, kk in fams:
+        run.check_tiling(results, "str%s-" % name, addrlib.str_count(len(addrlib.ALPHABETS[name]), maxlen))
     ctx.cov["exhaustive"] = True
     ctx.cov["rule"] = ("distinct strings accepted by irc_pton in some configuration or by inet_pton (incl. every mask form text and mutated "
                        "text that reached a parser), among the cases run on the real code; mask pairs are counted in evaluations only")
